@@ -371,7 +371,28 @@ pub const ALL_PATHS: PathOpts = PathOpts { harmless_extras: true, malformed: tru
 
 pub fn issue_spec_strategy(cfg: ClaimCfg, popts: PathOpts, holders: BoxedStrategy<HolderKey>) -> BoxedStrategy<IssueSpec> {
     (claims_and_strategy(cfg, popts), any::<bool>(), fmt_strategy(), alg_strategy(), holders)
-        .prop_map(|((claims, strat), decoys, fmt, alg, holder)| IssueSpec { claims, strat, decoys, fmt, alg, holder })
+        .prop_map(|((mut claims, strat), decoys, fmt, alg, holder)| {
+            // `cnf` is only excluded from the claim domain when a holder key is bound; without one
+            // it is an ordinary claim (here: sometimes one that looks like a real confirmation key).
+            // Derived from the claims' own content so that no extra random choice is needed.
+            if holder == HolderKey::None {
+                let h = sdjwt_model::stats::hash_str(&claims.to_string());
+                if h % 9 == 0 {
+                    let v = match (h / 9) % 6 {
+                        0 => serde_json::json!({"jwk": HolderKey::Ec.jwk_value().unwrap()}),
+                        1 => serde_json::json!({"jwk": HolderKey::Ed.jwk_value().unwrap(), "note": "user data"}),
+                        2 => serde_json::json!({"jwk": {"kty": "EC", "crv": "P-256", "x": "TCAER19Zvu3OHF4j4W4vfSVoHIP1ILilDls7vCeGemc", "y": "ZxjiWWbZMQGHVWKVQ4hbSIirsVfuecCE6t4jT9F2HZQ", "extra": [1, 2]}}),
+                        3 => serde_json::json!("not an object"),
+                        4 => serde_json::json!({"kid": "k"}),
+                        _ => serde_json::json!({"jwk": {"a": 1}}),
+                    };
+                    if let Some(o) = claims.as_object_mut() {
+                        o.insert("cnf".into(), v);
+                    }
+                }
+            }
+            IssueSpec { claims, strat, decoys, fmt, alg, holder }
+        })
         .boxed()
 }
 
